@@ -204,7 +204,7 @@ fn check_context(c: &Ctx, l: &mut Local) -> Outcome {
 }
 
 fn arb_context() -> BoxedStrategy<Ctx> {
-    let names = vec!["a", "b", "c", "ä", "x y", "", "日本", "min", "a.b", "\"q\"", "n0", "n1", "n2"];
+    let names = vec!["a", "A", "b", "c", "ä", "Ä", "x y", "", "日本", "min", "Min", "a.b", "\"q\"", "n0", "N0", "n1", "n2", "ß", "SS", "ss"];
     (
         proptest::collection::vec(
             (
